@@ -66,6 +66,7 @@ def measure(job):
             return c, [("exception", 1.0, "linop.Wavelet raised %r" % (e,))]
         ev.append(("advertised_shape", 0.0 if tuple(W.oshape) == spec_osh else 1.0, "Wavelet.oshape %s vs shape calculus %s" % (tuple(W.oshape), spec_osh)))
         for cplx in (False, True):
+          try:
             x = rs.randn(*shape) + (1j * rs.randn(*shape) if cplx else 0)
             x0 = x.copy()
             y = sp.fwt(x, wave_name=c["wave"], axes=axes, level=level)
@@ -90,6 +91,10 @@ def measure(job):
                 ev.append(("reconstruct", np.linalg.norm(xb - x) / nx if tuple(xb.shape) == tuple(shape) else 1.0, "iwt of %s coefficients vs x" % lab))
             if not cplx and np.iscomplexobj(y):
                 ev.append(("dtype", 1.0, "real input gave complex coefficients"))
+          except Exception as e:
+            if not core.raised_in_code_under_test():
+                raise
+            ev.append(("exception", 1.0, "fwt / Wavelet / Wavelet.H raised %r on a shape-calculus state" % (e,)))
         ev.append(("adjoint_shapes", 0.0 if (list(W.H.ishape) == list(W.oshape) and list(W.H.oshape) == list(W.ishape)) else 1.0, "Wavelet.H shapes"))
         # data of very small and very large magnitude: every identity is homogeneous, nothing may underflow to a shortcut or overflow
         try:
